@@ -104,6 +104,9 @@ def plan(prop):
             obs.append((prag, lambda ctx, kinds=kinds, dims=dims, wr=wr: po.ob_writer_tour(ctx, kinds, dims, wr)))
         for kinds, dims, wr in ([(('delivery', 'pickup'), 1, (7, 3, 2, 2, 2))] if Q else [(('delivery', 'pickup'), 1, (7, 3, 2, 2, 2)), (('pickup', 'service', 'delivery'), 2, (1, 2, 5, 5, 5)), ((), 1, (7, 3, 2, 2, 2))]):
             obs.append((prag, lambda ctx, kinds=kinds, dims=dims, wr=wr: po.ob_writer_tour(ctx, kinds, dims, wr, False)))
+        # time-dependent routing data: every look-up of the writer must use the departure time of the leg
+        for kinds, dims, wr in ([(('delivery', 'pickup'), 1, (7, 3, 2, 2, 2))] if Q else [(('delivery', 'pickup'), 1, (7, 3, 2, 2, 2)), (('service',), 1, (1, 2, 5, 5, 5)), (('pickup', 'service', 'delivery'), 1, (7, 3, 2, 2, 2))]):
+            obs.append((prag, lambda ctx, kinds=kinds, dims=dims, wr=wr: po.ob_writer_tour(ctx, kinds, dims, wr, True, True)))
         obs.append((prag, lambda ctx: po.ob_statistic_sum(ctx)))
         for how in ('location', 'disjoint', 'any'):
             obs.append((prag, lambda ctx, how=how: po.ob_job_tag(ctx, how)))
